@@ -118,8 +118,10 @@ Record walk_spec := mkWalkSpec {
   ws_skip_placed : bool;          (* if not placed[other] *)
   ws_mark_on_push : bool;         (* placed[other] = True *)
   ws_emit_parent_child : bool;    (* walk.append((atom, other)) *)
-  ws_push_new : bool              (* stack.append(other) *) }.
-Definition model_walk_spec : walk_spec := mkWalkSpec true true true true true true true.
+  ws_push_new : bool;             (* stack.append(other) *)
+  ws_fresh : bool                 (* recomputed from topology.bonds on every call: no early return, nothing stored on or
+                                     read from the topology / module (no cache, no memoisation) *) }.
+Definition model_walk_spec : walk_spec := mkWalkSpec true true true true true true true true.
 
 (* topology.py:find_molecules -- the connected components of the bond graph, numbered in the order of their
    lowest atom.  Modelled as a FUNCTION (the partition), computed with the traversal above; the Python code uses its
